@@ -93,8 +93,15 @@ func genesisEq(id string, g1, g2 *types.GenesisState) {
 // genesisState: delegations, a mixed unbonding bucket, pending redelegations (optionally a
 // merged fan-in record) and a weight-change snapshot.
 func genesisState(k int) *State {
-	st := Build([]Pos{{0, 0, 0}, {0, 1, 0}, {1, 1, 0}, {1, 0, 1}}, Opts{NVals: 3, NDenoms: 2, Rewards: true, Params: true})
+	// share prices 1 and no live reward machinery: export/import only copies the numbers, and the
+	// continuation steps stay in linear arithmetic; reward histories are installed as opaque data
+	st := Build([]Pos{{0, 0, 0}, {0, 1, 0}, {1, 1, 0}, {1, 0, 1}}, Opts{NVals: 3, NDenoms: 2, UnitPrice: true, Params: true})
 	e := st.E
+	for v := 0; v < 2; v++ {
+		info, _ := e.K.GetAllianceValidatorInfo(e.Ctx, Vals[v])
+		info.GlobalRewardHistory = []types.RewardHistory{{Denom: env.BondDenom, Alliance: Denoms[0], Index: nd.DecRange("gidx_"+string(rune('0'+v)), "0", Pow12)}}
+		_ = e.K.SetValidatorInfo(e.Ctx, Vals[v], info)
+	}
 	c1 := nd.TimeRange("c1", TLo, THi)
 	nd.Assume(c1.After(st.T0))
 	// one shared bucket: entries of two validators and two denoms of the same validator
